@@ -86,6 +86,17 @@ void drive_view(const M<arr_d>& ma, const arr_d& a, const arr_f& af, const M<dyn
     (void)v1;(void)v2;(void)v3;(void)v4;(void)v5;(void)v6;(void)v7;(void)v8;(void)v9;(void)v10;(void)v11;(void)v12;(void)v13;(void)v14;(void)v15;(void)v16;(void)v17;(void)v18;(void)v19;(void)v20;(void)v21;(void)v22;(void)v23;(void)v24;(void)v25;(void)v26;
     (void)w1;(void)w2;(void)w3;(void)w4;(void)w5;(void)x1;(void)x2;(void)x3;(void)x4;(void)x5;(void)y1;(void)y2;(void)y3;(void)y4;
 }
+using arr_id = na::ndarray_t<nmtools_list<int>, dyn_shape>;
+using arr_if = na::ndarray_t<nmtools_list<int>, fix_shape>;
+using arr_ih = na::ndarray_t<nmtools_array<int,24>, nm::utl::static_vector<size_t,4>>;
+void drive_compare(const arr_id& a, const arr_id& b, const arr_if& c, const arr_if& d, const arr_ih& e, const arr_f& x, const arr_f& y, const arr_d& p, const arr_d& q,
+                   const nmtools_list<size_t>& l1, const nm::utl::static_vector<size_t,4>& l2, const fix_shape& l3)
+{
+    auto r1 = nm::utils::isequal(a,b); auto r2 = nm::utils::isequal(c,d); auto r3 = nm::utils::isequal(a,c); auto r4 = nm::utils::isequal(e,e); auto r5 = nm::utils::isequal(e,a);
+    auto s1 = nm::utils::isclose(x,y); auto s2 = nm::utils::isclose(p,q); auto s3 = nm::utils::isclose(x,p);
+    auto t1 = nm::utils::isequal(l1,l1); auto t2 = nm::utils::isequal(l1,l2); auto t3 = nm::utils::isequal(l2,l3); auto t4 = nm::utils::isequal(l3,l1);
+    (void)r1;(void)r2;(void)r3;(void)r4;(void)r5;(void)s1;(void)s2;(void)s3;(void)t1;(void)t2;(void)t3;(void)t4;
+}
 void drive_kernel(float* out, const size_t* shp, const M<arr_d>& ma, const arr_d& a, na::kernel_size<size_t> t)
 {
     auto output = na::create_mutable_array(out, shp, 2);
